@@ -53,6 +53,7 @@ package internal
 //@   ensures[C13] no_creds_no_credential_calls: old(copts.Creds) == nil ==> !called("credentials.PerRPCCredentials.GetRequestMetadata") && !called("credentials.PerRPCCredentials.RequireTransportSecurity")
 //@   ensures[C13] error_returns_no_context: result1 != nil ==> result0 == nil
 //@   ensures[C13] insecure_transport_refused: called("credentials.PerRPCCredentials.RequireTransportSecurity") && lastresult("credentials.PerRPCCredentials.RequireTransportSecurity") && !isChannelSecure ==> result1 != nil && !called("credentials.PerRPCCredentials.GetRequestMetadata")
+//@   ensures[C13] a_secure_or_undemanding_call_asks_the_credentials: called("credentials.PerRPCCredentials.RequireTransportSecurity") && (!lastresult("credentials.PerRPCCredentials.RequireTransportSecurity") || isChannelSecure) ==> called("credentials.PerRPCCredentials.GetRequestMetadata")
 //@   ensures[C13] security_always_consulted: old(copts.Creds) != nil ==> called("credentials.PerRPCCredentials.RequireTransportSecurity")
 //@   assert_call[C13] credentials.PerRPCCredentials.GetRequestMetadata : security_checked_first: called("credentials.PerRPCCredentials.RequireTransportSecurity") && (!lastresult("credentials.PerRPCCredentials.RequireTransportSecurity") || isChannelSecure)
 //@   assert_call[C13] credentials.PerRPCCredentials.GetRequestMetadata : asked_for_this_call: arg0 == copts.Creds && arg1 == ctx && len(arg2) == 1 && arg2[0] == uri
@@ -67,8 +68,18 @@ package internal
 //@   assert_call[C13] metadata.FromOutgoingContext : of_callers_context: arg0 == ctx
 //@   modifies external
 //
+// GetCallOptions: every option kind lands in its own slot. The loop invariant pins the
+// effect of the option just processed (appended last / stored), which is what a dropped or
+// misdirected assignment breaks; sizes only ever count processed options.
 //@ func GetCallOptions
 //@   ensures[C03,C13] result != nil && fresh(result)
+//@   loop loop#1 invariant[C03] header_option_just_processed_is_the_last_target: rangeindex >= 0 && typeis(opts[rangeindex], "grpc.HeaderCallOption") ==> len(copts.Headers) > 0 && copts.Headers[len(copts.Headers) - 1] == unbox(opts[rangeindex], "grpc.HeaderCallOption").HeaderAddr
+//@   loop loop#1 invariant[C03] trailer_option_just_processed_is_the_last_target: rangeindex >= 0 && typeis(opts[rangeindex], "grpc.TrailerCallOption") ==> len(copts.Trailers) > 0 && copts.Trailers[len(copts.Trailers) - 1] == unbox(opts[rangeindex], "grpc.TrailerCallOption").TrailerAddr
+//@   loop loop#1 invariant[C13] peer_option_just_processed_is_the_last_target: rangeindex >= 0 && typeis(opts[rangeindex], "grpc.PeerCallOption") ==> len(copts.Peer) > 0 && copts.Peer[len(copts.Peer) - 1] == unbox(opts[rangeindex], "grpc.PeerCallOption").PeerAddr
+//@   loop loop#1 invariant[C13] credentials_option_just_processed_wins: rangeindex >= 0 && typeis(opts[rangeindex], "grpc.PerRPCCredsCallOption") ==> copts.Creds == unbox(opts[rangeindex], "grpc.PerRPCCredsCallOption").Creds
+//@   loop loop#1 invariant[C03] size_options_just_processed_win: rangeindex >= 0 ==> (typeis(opts[rangeindex], "grpc.MaxRecvMsgSizeCallOption") ==> copts.MaxRecv == unbox(opts[rangeindex], "grpc.MaxRecvMsgSizeCallOption").MaxRecvMsgSize) && (typeis(opts[rangeindex], "grpc.MaxSendMsgSizeCallOption") ==> copts.MaxSend == unbox(opts[rangeindex], "grpc.MaxSendMsgSizeCallOption").MaxSendMsgSize)
+//@   loop loop#1 invariant[C03,C13] never_more_targets_than_options: len(copts.Headers) <= rangeindex + 1 && len(copts.Trailers) <= rangeindex + 1 && len(copts.Peer) <= rangeindex + 1 && (rangeindex == -1 ==> copts.Creds == nil)
+//@   ensures[C03,C13] no_options_no_targets: len(opts) == 0 ==> len(result.Headers) == 0 && len(result.Trailers) == 0 && len(result.Peer) == 0 && result.Creds == nil
 //@   modifies nothing
 
 // ---- transport_stream.go: UnaryServerTransportStream (C03) ----
@@ -120,6 +131,7 @@ package internal
 //@   modifies sts.hdrs, maps("metadata.MD"), mem("string")
 //
 //@ func (*UnaryServerTransportStream).SendHeader
+//@   ensures[C03] accepted_headers_are_marked_sent: lastresult("(*UnaryServerTransportStream).setHeaderLocked") == nil ==> sts.hdrsSent && result == nil
 //@   ensures[C03] sets_then_marks_sent: calls("(*UnaryServerTransportStream).setHeaderLocked") == 1 && (lastresult("(*UnaryServerTransportStream).setHeaderLocked") != nil ==> result == lastresult("(*UnaryServerTransportStream).setHeaderLocked")) && (lastresult("(*UnaryServerTransportStream).setHeaderLocked") == nil ==> result == nil)
 //@   assert_call[C03] (*UnaryServerTransportStream).setHeaderLocked : arg0 == sts && arg1 == md
 //@   modifies sts.hdrs, sts.hdrsSent, maps("metadata.MD"), mem("string")
@@ -133,6 +145,7 @@ package internal
 //@   assert_call[C03] grpc.ServerStream.SendHeader : arg0 == sts.Stream && arg1 == md
 //@   modifies everything
 //@ func (*ServerTransportStream).SetTrailer
+//@   ensures[C03] the_in_process_stream_which_can_refuse_trailers_is_asked_that_way: typeis(old(sts.Stream), "*inprocgrpc.inProcessServerStream") ==> called("internal.trailerWithErrors.TrySetTrailer")
 //@   ensures[C03] error_reporting_setter_preferred: called("internal.trailerWithErrors.TrySetTrailer") ==> result == lastresult("internal.trailerWithErrors.TrySetTrailer") && !called("grpc.ServerStream.SetTrailer")
 //@   ensures[C03] otherwise_plain_setter_once: !called("internal.trailerWithErrors.TrySetTrailer") ==> calls("grpc.ServerStream.SetTrailer") == 1 && result == nil
 //@   modifies everything
